@@ -1,3 +1,255 @@
-//! placeholder, filled in below
+//! C01 — one Metropolis-Hastings step obeys the acceptance rule; C14 (MH part) — a candidate of
+//! density -inf/NaN is never adopted.
+//!
+//! Real code: `<MHMarkovChain<S,F,D,Q> as MarkovChain<S>>::step`.  "For all Target/Proposal
+//! implementations" is exact for one step, because a step evaluates them only at x and y: the
+//! target is an arbitrary table on {x,y}, the proposal density an arbitrary (asymmetric) table on
+//! {x,y}^2, the candidate an arbitrary y, all of them solver variables incl. +-inf/NaN; the chain's
+//! generator state is arbitrary (so u ranges over every producible variate), `ln u` is the
+//! contract stub.
+
+use crate::env;
 use crate::Src;
-pub fn by_name(_name: &str) -> Option<fn(&mut Src)> { None }
+use crate::{chk, cov};
+use mini_mcmc::core::MarkovChain;
+use mini_mcmc::distributions::{Proposal, Target};
+use mini_mcmc::metropolis_hastings::MHMarkovChain;
+use rand::rngs::SmallRng;
+use rand::{Rng, SeedableRng};
+
+pub trait BitEq: Copy {
+    fn biteq(a: Self, b: Self) -> bool;
+}
+impl BitEq for u8 {
+    fn biteq(a: u8, b: u8) -> bool {
+        a == b
+    }
+}
+impl BitEq for i32 {
+    fn biteq(a: i32, b: i32) -> bool {
+        a == b
+    }
+}
+impl BitEq for f64 {
+    fn biteq(a: f64, b: f64) -> bool {
+        a.to_bits() == b.to_bits()
+    }
+}
+impl BitEq for f32 {
+    fn biteq(a: f32, b: f32) -> bool {
+        a.to_bits() == b.to_bits()
+    }
+}
+
+fn same<S: BitEq>(a: &[S], b: &[S]) -> bool {
+    if a.len() != b.len() {
+        return false;
+    }
+    let mut i = 0;
+    while i < a.len() {
+        if !S::biteq(a[i], b[i]) {
+            return false;
+        }
+        i += 1;
+    }
+    true
+}
+
+/// index of a point in the table: 0 = x, 1 = y (if different from x), 2 = anything else
+fn idx<S: BitEq>(p: &[S], x: &[S], y: &[S]) -> usize {
+    if same(p, x) {
+        0
+    } else if same(p, y) {
+        1
+    } else {
+        2
+    }
+}
+
+#[derive(Clone)]
+pub struct TabTarget<S, F> {
+    pub x: Vec<S>,
+    pub y: Vec<S>,
+    pub lp: [F; 3],
+}
+impl<S: BitEq, F: num_traits::Float> Target<S, F> for TabTarget<S, F> {
+    fn unnorm_logp(&self, position: &[S]) -> F {
+        self.lp[idx(position, &self.x, &self.y)]
+    }
+}
+
+#[derive(Clone)]
+pub struct TabProposal<S, F> {
+    pub x: Vec<S>,
+    pub y: Vec<S>,
+    /// q[from][to] = log q(to | from)
+    pub q: [[F; 3]; 3],
+    pub sampled_from_x: bool,
+    pub n_samples: u32,
+}
+impl<S: BitEq, F: num_traits::Float> Proposal<S, F> for TabProposal<S, F> {
+    fn sample(&mut self, current: &[S]) -> Vec<S> {
+        self.sampled_from_x = same(current, &self.x);
+        self.n_samples += 1;
+        self.y.clone()
+    }
+    fn logp(&self, from: &[S], to: &[S]) -> F {
+        self.q[idx(from, &self.x, &self.y)][idx(to, &self.x, &self.y)]
+    }
+    fn set_seed(self, _seed: u64) -> Self {
+        self
+    }
+}
+
+pub const MODE_RULE: u8 = 0; // C01: exact rule
+pub const MODE_ROBUST: u8 = 1; // C01: tolerant rule (stage 2 of the rounding policy)
+pub const MODE_C14: u8 = 2; // C14: lp(x) finite, lp(y) in {-inf, NaN}  =>  stay
+
+macro_rules! c01_covers {
+    (c14, $src:ident, $F:ty, $lpy:ident, $bwd:ident, $fwd:ident, $iy:ident, $at_y:ident, $at_x:ident, $ratio:ident) => {
+        cov!($src, $lpy.is_nan(), "candidate density NaN");
+        cov!($src, $lpy == <$F>::NEG_INFINITY && $bwd == <$F>::INFINITY, "candidate density -inf with backward proposal density +inf");
+        cov!($src, $lpy == <$F>::NEG_INFINITY && $fwd == <$F>::NEG_INFINITY, "candidate density -inf with forward proposal density -inf");
+    };
+    ($other:ident, $src:ident, $F:ty, $lpy:ident, $bwd:ident, $fwd:ident, $iy:ident, $at_y:ident, $at_x:ident, $ratio:ident) => {
+        cov!($src, $iy == 1 && $at_y, "accepted");
+        cov!($src, $iy == 1 && $at_x, "rejected");
+        cov!($src, $ratio.is_nan(), "NaN acceptance ratio");
+        cov!($src, $iy == 1 && $fwd != $bwd && $at_y, "accepted under an asymmetric proposal");
+    };
+}
+
+macro_rules! c01_body {
+    ($name:ident, $S:ty, $F:ty, $len:expr, $anys:ident, $anyf:ident, $setln:ident, $lnof:ident, $lnarg:ident,
+     $lncalls:ident, $lnargs:ident, $mode:expr, $modetok:ident, $big:expr, $tolexp:expr) => {
+        pub fn $name(src: &mut Src) {
+            const LEN: usize = $len;
+            let mode: u8 = $mode;
+            let mut x: Vec<$S> = Vec::with_capacity(LEN);
+            let mut y: Vec<$S> = Vec::with_capacity(LEN);
+            let mut i = 0;
+            while i < LEN {
+                x.push(src.$anys());
+                i += 1;
+            }
+            let mut i = 0;
+            while i < LEN {
+                y.push(src.$anys());
+                i += 1;
+            }
+            let lp: [$F; 3] = [src.$anyf(), src.$anyf(), src.$anyf()];
+            let mut q: [[$F; 3]; 3] = [[0.0; 3]; 3];
+            let mut a = 0;
+            while a < 3 {
+                let mut b = 0;
+                while b < 3 {
+                    q[a][b] = src.$anyf();
+                    b += 1;
+                }
+                a += 1;
+            }
+            let seed = src.seed32();
+            env::$setln(src, 1);
+
+            let target = TabTarget::<$S, $F> { x: x.clone(), y: y.clone(), lp };
+            let proposal = TabProposal::<$S, $F> { x: x.clone(), y: y.clone(), q, sampled_from_x: false, n_samples: 0 };
+            // built directly (pub fields would also do): `new` only adds an entropy-seeded generator
+            env::set_entropy(src, 0);
+            let mut chain = MHMarkovChain::<$S, $F, _, _>::new(target, proposal, x.clone());
+            chain.rng = SmallRng::from_seed(seed);
+            let mut twin = SmallRng::from_seed(seed);
+            let u: $F = twin.random();
+
+            let ix = 0usize;
+            let iy = idx(&y, &x, &y);
+            let lpx = lp[ix];
+            let lpy = lp[iy];
+            let fwd = q[ix][iy]; // log q(y | x)
+            let bwd = q[iy][ix]; // log q(x | y)
+            if mode == MODE_C14 {
+                src.assume(lpx.is_finite());
+                src.assume(lpy.is_nan() || lpy == <$F>::NEG_INFINITY);
+                src.assume(iy == 1);
+            }
+
+            let ret_is_state = {
+                let r = chain.step();
+                same(r, &x) || same(r, &y)
+            };
+            let fin = chain.current_state.clone();
+
+            let lnu = env::$lnof(0, u);
+            let ratio = (lpy + bwd) - (lpx + fwd);
+            let accept = lnu < ratio;
+            let at_y = same(&fin, &y);
+            let at_x = same(&fin, &x);
+
+            chk!(src, at_x || at_y, "the step ends at the previous state or at the candidate, bit for bit");
+            chk!(src, ret_is_state && same(chain.current_state(), &fin), "step returns the chain's new current state");
+            chk!(src, chain.proposal.n_samples == 1 && chain.proposal.sampled_from_x, "exactly one candidate is drawn, from the current state");
+            #[cfg(kani)]
+            unsafe {
+                chk!(src, env::$lncalls == 1, "the step takes the logarithm of exactly one acceptance draw");
+                let arg = env::$lnargs[0];
+                chk!(src, arg >= 0.0 && arg < 1.0, "the acceptance draw lies in [0,1)");
+                cov!(src, arg == 0.0, "acceptance draw exactly 0");
+                cov!(src, arg >= 1.0 - <$F>::EPSILON / 2.0, "acceptance draw at the largest representable value below 1");
+            }
+            if mode == MODE_RULE {
+                if iy == 1 {
+                    chk!(src, at_y == accept, "moves to y exactly when ln u < [lp(y)+q(x|y)] - [lp(x)+q(y|x)]");
+                    chk!(src, accept || at_x, "a rejected step leaves the chain at x bit for bit");
+                }
+            } else if mode == MODE_ROBUST {
+                let big: $F = $big;
+                let all_finite = lpx.is_finite() && lpy.is_finite() && fwd.is_finite() && bwd.is_finite();
+                let small = lpx.abs() <= big && lpy.abs() <= big && fwd.abs() <= big && bwd.abs() <= big;
+                if iy == 1 {
+                    if all_finite && small && lnu.is_finite() {
+                        let scale = lpx.abs() + lpy.abs() + fwd.abs() + bwd.abs() + lnu.abs();
+                        let tol = scale * ($tolexp as $F);
+                        if lnu < ratio - tol {
+                            chk!(src, at_y, "moves to y when ln u is clearly below the log acceptance ratio");
+                        }
+                        if lnu > ratio + tol {
+                            chk!(src, at_x, "stays at x when ln u is clearly above the log acceptance ratio");
+                        }
+                    } else if !all_finite || !lnu.is_finite() {
+                        chk!(src, at_y == accept, "non-finite log values: moves to y exactly when ln u < ratio in IEEE arithmetic");
+                    }
+                }
+            } else {
+                chk!(src, at_x, "a candidate whose log-density is -inf or NaN is never adopted");
+            }
+            c01_covers!($modetok, src, $F, lpy, bwd, fwd, iy, at_y, at_x, ratio);
+            cov!(src, lnu == <$F>::NEG_INFINITY, "ln u = -inf");
+            cov!(src, true, "end reached");
+        }
+    };
+}
+
+// instantiations (one harness per concrete instantiation of the generic step)
+c01_body!(c01_u8_f32, u8, f32, 1, u8, f32, set_ln32, ln_of_f32, ln_called_with_f32, LN_CALLS32, LN_ARG32, MODE_RULE, rule, 1.0e30, 3.814697265625e-6);
+c01_body!(c01_u8_f32_robust, u8, f32, 1, u8, f32, set_ln32, ln_of_f32, ln_called_with_f32, LN_CALLS32, LN_ARG32, MODE_ROBUST, robust, 1.0e30, 3.814697265625e-6);
+c01_body!(c01_i32_f32, i32, f32, 1, i32, f32, set_ln32, ln_of_f32, ln_called_with_f32, LN_CALLS32, LN_ARG32, MODE_RULE, rule, 1.0e30, 3.814697265625e-6);
+c01_body!(c01_u8_f64, u8, f64, 1, u8, f64, set_ln64, ln_of_f64, ln_called_with_f64, LN_CALLS64, LN_ARG64, MODE_RULE, rule, 1.0e300, 7.105427357601002e-15);
+c01_body!(c01_u8_f64_robust, u8, f64, 1, u8, f64, set_ln64, ln_of_f64, ln_called_with_f64, LN_CALLS64, LN_ARG64, MODE_ROBUST, robust, 1.0e300, 7.105427357601002e-15);
+c01_body!(c01_f64_f64_len2, f64, f64, 2, f64, f64, set_ln64, ln_of_f64, ln_called_with_f64, LN_CALLS64, LN_ARG64, MODE_RULE, rule, 1.0e300, 7.105427357601002e-15);
+c01_body!(c01_f32_f32_len2, f32, f32, 2, f32, f32, set_ln32, ln_of_f32, ln_called_with_f32, LN_CALLS32, LN_ARG32, MODE_RULE, rule, 1.0e30, 3.814697265625e-6);
+c01_body!(c14_mh_u8_f32, u8, f32, 1, u8, f32, set_ln32, ln_of_f32, ln_called_with_f32, LN_CALLS32, LN_ARG32, MODE_C14, c14, 1.0e30, 3.814697265625e-6);
+c01_body!(c14_mh_f64_f64_len2, f64, f64, 2, f64, f64, set_ln64, ln_of_f64, ln_called_with_f64, LN_CALLS64, LN_ARG64, MODE_C14, c14, 1.0e300, 7.105427357601002e-15);
+
+pub fn by_name(name: &str) -> Option<fn(&mut Src)> {
+    Some(match name {
+        "c01_u8_f32" => c01_u8_f32,
+        "c01_u8_f32_robust" => c01_u8_f32_robust,
+        "c01_i32_f32" => c01_i32_f32,
+        "c01_u8_f64" => c01_u8_f64,
+        "c01_u8_f64_robust" => c01_u8_f64_robust,
+        "c01_f64_f64_len2" => c01_f64_f64_len2,
+        "c01_f32_f32_len2" => c01_f32_f32_len2,
+        "c14_mh_u8_f32" => c14_mh_u8_f32,
+        "c14_mh_f64_f64_len2" => c14_mh_f64_f64_len2,
+        _ => return None,
+    })
+}
